@@ -22,6 +22,8 @@ pub enum Op
     Write(String, Vec<u8>),
     Remove(String),
     Chmod(String, bool),
+    /// mv p q by the user: the file keeps its content, modification time and permissions
+    Move(String, String),
     RmCache(String),
     RmRuler,
     RmCacheDir,
@@ -44,6 +46,7 @@ impl Op
             Op::Write(p, c) => sexp::paren(&["write".to_string(), sexp::hex(p.as_bytes()), sexp::hex(c)]),
             Op::Remove(p) => sexp::paren(&["rm".to_string(), sexp::hex(p.as_bytes())]),
             Op::Chmod(p, x) => sexp::paren(&["chmod".to_string(), sexp::hex(p.as_bytes()), sexp::boolean(*x)]),
+            Op::Move(p, q) => sexp::paren(&["mv".to_string(), sexp::hex(p.as_bytes()), sexp::hex(q.as_bytes())]),
             Op::RmCache(n) => sexp::paren(&["rmcache".to_string(), sexp::hex(n.as_bytes())]),
             Op::RmRuler => "(rmruler)".to_string(),
             Op::RmCacheDir => "(rmcachedir)".to_string(),
@@ -66,6 +69,7 @@ impl Op
             Op::Write(p, c) => format!("write {:?} <- {:?}", p, txt(c)),
             Op::Remove(p) => format!("delete {:?}", p),
             Op::Chmod(p, x) => format!("chmod {} {:?}", if *x { "+x" } else { "-x" }, p),
+            Op::Move(p, q) => format!("mv {:?} {:?} (modification time kept)", p, q),
             Op::RmCache(n) => format!("delete cache entry {}", n),
             Op::RmRuler => "delete the ruler directory".to_string(),
             Op::RmCacheDir => "delete the cache directory".to_string(),
@@ -252,6 +256,7 @@ impl Driver
             Op::Write(p, c) => self.sys.user_write(p, c),
             Op::Remove(p) => { self.sys.user_remove(p); },
             Op::Chmod(p, x) => self.sys.user_set_exec(p, *x),
+            Op::Move(p, q) => self.sys.user_move(p, q),
             Op::RmCache(n) => { self.sys.user_remove(&format!("{}{}", cache_prefix(), n)); },
             Op::RmRuler => self.sys.user_remove_tree(RULER_DIR),
             Op::RmCacheDir => self.sys.user_remove_tree(&format!("{}/cache", RULER_DIR)),
@@ -504,6 +509,7 @@ pub fn parse_history_case(line : &str) -> Option<(bool, u64, Vec<Op>)>
             "write" => Op::Write(sx_string(&v[1])?, sx_bytes(&v[2])?),
             "rm" => Op::Remove(sx_string(&v[1])?),
             "chmod" => Op::Chmod(sx_string(&v[1])?, match &v[2] { Sx::Atom(a) => a == "T", _ => false }),
+            "mv" => Op::Move(sx_string(&v[1])?, sx_string(&v[2])?),
             "rmcache" => Op::RmCache(sx_string(&v[1])?),
             "rmruler" => Op::RmRuler,
             "rmcachedir" => Op::RmCacheDir,
